@@ -269,3 +269,23 @@ package route
 //@   trusted
 //@   fresh
 //@   ensures err == nil ==> r != nil
+
+// ---------------------------------------------------------------- pubsub / kafkaMdm / cloudwatch constructors (C14)
+// Parameters that cannot work (a negative buffer, a flush interval of zero) are refused, not accepted and crashed on
+// by the route's goroutine (ticker with a non-positive period, buffer growth by a negative amount).
+//@ assume_pure pubsub.NewClient, (*pubsub.Client).*, pubsub.Client.*, (*pubsub.Topic).*, pubsub.Topic.*, context.Background
+//@ assume_pure sarama.New*, sarama.Config.*, (*sarama.Config).*, partitioner.*, aws.*, session.*, cloudwatch.*, util.AddrToPath
+//@ func NewPubSub(key string, matcher matcher.Matcher, project string, topic string, format string, codec string, bufSize int, flushMaxSize int, flushMaxWait int, blocking bool) (r Route, err error)
+//@   property C14
+//@   modifies *
+//@   ensures[usable; C14] err == nil ==> typeIs(r, *PubSub) && as(r, *PubSub).flushMaxWait > 0 && as(r, *PubSub).flushMaxSize >= 0 && as(r, *PubSub).buf != nil
+//@ func NewCloudWatch(key string, matcher matcher.Matcher, awsProfile string, awsRegion string, awsNamespace string, awsDimensions [][]string, bufSize int, flushMaxSize int, flushMaxWait int, storageResolution int64, blocking bool) (r Route, err error)
+//@   property C14
+//@   modifies *
+//@   ensures[usable; C14] err == nil ==> typeIs(r, *CloudWatch) && as(r, *CloudWatch).flushMaxWait > 0 && as(r, *CloudWatch).buf != nil
+//@   loop 1:
+//@     invariant[wf] r != nil && r.flushMaxWait > 0 && r.buf != nil && bufSize >= 0
+//@ func NewKafkaMdm(key string, matcher matcher.Matcher, topic string, codec string, schemasFile string, partitionBy string, brokers []string, bufSize int, orgId int, flushMaxNum int, flushMaxWait int, timeout int, blocking bool, tlsEnabled bool, tlsSkipVerify bool, tlsClientCert string, tlsClientKey string, saslEnabled bool, saslMechanism string, saslUsername string, saslPassword string) (r Route, err error)
+//@   property C14
+//@   modifies *
+//@   ensures[usable; C14] err == nil ==> typeIs(r, *KafkaMdm) && as(r, *KafkaMdm).flushMaxWait > 0 && as(r, *KafkaMdm).flushMaxNum >= 0 && as(r, *KafkaMdm).buf != nil && usableSchemas(as(r, *KafkaMdm).schemas)
